@@ -60,16 +60,9 @@ Definition dump_clean (lists : bool) (links : list slink) (cfg dump : val) : boo
                     then match target_vals dump (s_tgt l) with [] => true | _ => false end
                     else true) links.
 
-(* re-parsing the dump reconstructs the target of every applied link, from the same source values *)
+(* re-parsing the dump reconstructs the target of every link: the same value(s) at the target's position(s).
+   (That the SOURCES survive the round trip is not demanded here: property C01.) *)
 Definition reparse_same (links : list slink) (cfg cfg2 : val) : bool :=
-  forallb (fun l => match mapM (get cfg) (s_src l) with
-                    | None => true
-                    | Some args =>
-                        list_eqb val_eqb (target_vals cfg (s_tgt l)) (target_vals cfg2 (s_tgt l))
-                        && match mapM (get cfg2) (s_src l) with
-                           | Some args2 => list_eqb val_sim args args2
-                           | None => false
-                           end
-                    end) links.
+  forallb (fun l => list_eqb val_eqb (target_vals cfg (s_tgt l)) (target_vals cfg2 (s_tgt l))) links.
 
 End Spec.
